@@ -68,11 +68,21 @@ JudgeC16(e) ==
              IN IF why = "" THEN OKv
                 ELSE IF FmtDev(c.tokens) # "" THEN Known(FmtDev(c.tokens), why)
                 ELSE Bad(why \o " (" \o e.layout \o " layout)")
+    [] e.ev = "reformat" ->
+        \* a text-level variant: what the text means is what ReadFile says it means (e.file1)
+        IF e.parse # "nil" THEN NAv
+        ELSE LET why == IF e.fres # "nil" THEN "Format fails on an accepted schema: " \o e.fres
+                        ELSE IF e.reparse # "nil" THEN "Format's output is not accepted by ReadFile"
+                        ELSE IF StripFile(e.file2) # StripFile(e.file1) THEN "Format's output denotes a different schema than its input"
+                        ELSE ""
+             IN IF why = "" THEN OKv
+                ELSE IF FmtDev(c.tokens) # "" THEN Known(FmtDev(c.tokens), why)
+                ELSE Bad(why \o " (" \o e.layout \o ")")
     [] OTHER -> NAv
 
 JudgeC17(e) ==
   LET c == Cases[e.cid] IN
-  CASE e.ev = "format" ->
+  CASE e.ev \in {"format", "reformat"} ->
         IF e.parse # "nil" \/ e.fres # "nil" THEN NAv
         ELSE IF e.idem THEN OKv
         ELSE IF FmtDev(c.tokens) # "" THEN Known(FmtDev(c.tokens), "Format is not idempotent")
